@@ -1,4 +1,5 @@
 import copy
+import inspect
 import operator
 from functools import wraps
 from typing import Any, Callable, Dict, List, Optional, Type, Union
@@ -313,9 +314,18 @@ class AstToDjangoQVisitor(visitor.NodeVisitor):
         kwargs = {}
         for arg in node.args:
             if isinstance(arg, ast.NamedParam):
+                if arg.name.name in kwargs:
+                    # The same parameter given twice: don't silently drop one.
+                    raise ex.TypeException(func_name, arg.name.name)
                 kwargs[arg.name.name] = arg.param
             else:
                 args.append(arg)
+
+        try:
+            inspect.signature(q_gen).bind(*args, **kwargs)
+        except TypeError:
+            # E.g. a parameter name the function doesn't know about.
+            raise ex.TypeException(func_name, ", ".join(kwargs) or str(len(args)))
 
         res = q_gen(*args, **kwargs)
         return res
